@@ -114,9 +114,31 @@ fn speak_rules(rules: &'static std::thread::LocalKey<RefCell<SpeechRules>>, math
         if !nav_node_id.is_empty() {
             // See https://github.com/NSoiffer/MathCAT/issues/174 for why we can just start the speech at the nav node
             if let Some(start) = speech_string.find("[[") {
-                match speech_string[start+2..].find("]]") {
+                // more than one node of the intent tree can have the nav node's id (e.g., both levels made from an msubsup),
+                // so the marks can nest: find the "]]" that matches the first "[[" and drop the marks inside
+                let marked = &speech_string[start+2..];
+                let mut depth = 1;
+                let mut i = 0;
+                let mut end = None;
+                while let Some(next) = marked[i..].find(|ch| ch == '[' || ch == ']') {
+                    let at = i + next;
+                    if marked[at..].starts_with("[[") {
+                        depth += 1;
+                        i = at + 2;
+                    } else if marked[at..].starts_with("]]") {
+                        depth -= 1;
+                        if depth == 0 {
+                            end = Some(at);
+                            break;
+                        }
+                        i = at + 2;
+                    } else {
+                        i = at + 1;
+                    }
+                }
+                match end {
                     None => bail!("Internal error: looking for '[[...]]' during navigation -- only found '[[' in '{}'", speech_string),
-                    Some(end) => speech_string = speech_string[start+2..start+2+end].to_string(),
+                    Some(end) => speech_string = marked[..end].replace("[[", "").replace("]]", ""),
                 }
             } else {
                 bail!(NAV_NODE_SPEECH_NOT_FOUND);
